@@ -73,6 +73,11 @@ pub const DISARMED: i64 = -1;
 
 /// light mode (Miri batches): short histories, few crash points, sparse full drains
 pub static LIGHT: std::sync::atomic::AtomicBool = std::sync::atomic::AtomicBool::new(false);
+/// thorough tier: a share of the runs is much longer / larger
+pub static THOROUGH: std::sync::atomic::AtomicBool = std::sync::atomic::AtomicBool::new(false);
+pub fn thorough() -> bool {
+    THOROUGH.load(std::sync::atomic::Ordering::Relaxed)
+}
 pub fn light() -> bool {
     LIGHT.load(std::sync::atomic::Ordering::Relaxed)
 }
